@@ -5,6 +5,7 @@ From Verif Require Interp.RunStep Interp.RunFootprint.
 From Verif Require Import Interp.RunCompat Interp.RunLink.
 From Verif Require Import Interp.RunATPClient.
 From Verif Require Import Interp.RunAtpsrv Interp.RunAtpxp.
+From Verif Require Import Interp.RunC04 Interp.RunC12.
 Open Scope string_scope.
 
 Definition run_case (x : sexp) : sexp :=
@@ -23,6 +24,10 @@ Definition run_case (x : sexp) : sexp :=
         else if String.eqb fam "atpclient" then run_atpclient_case payload
         else if String.eqb fam "atpsrv" then run_atpsrv_case payload
         else if String.eqb fam "c05transparent" then run_atpxp_case payload
+        else if String.eqb fam "c04" then run_c04_case payload
+        else if String.eqb fam "c04s" then run_c04s_case payload
+        else if String.eqb fam "c12" then run_c12_case payload
+        else if String.eqb fam "c12s" then run_c12s_case payload
         else bad "unknown family" in
       Ls [At "obs"; id; r]
   | _ => bad "not a case"
